@@ -42,6 +42,19 @@ CLAIMED["C03"] = dict(
     technique="jaxpr symbolic execution + polynomial hypotheses + z3 QF_LRA (XL certificates); z3 NRA refutation; float64 replay",
     design="§4 C03")
 
+CLAIMED["C06"] = dict(
+    text="Bounded model checking of the REAL adaptive driver: solve_adaptive_save_at / RejectionLoop / both controllers are "
+         "traced with a scripted solver and error estimator whose answers are uninterpreted functions, the jaxpr (scan, two "
+         "nested while loops, cond/switch) is executed over z3 terms with the loops unrolled to the stated bounds, and each "
+         "clause of the property is an assertion over the recorded attempt/controller/interpolation probes that z3 decides "
+         "for every error profile, checkpoint layout, dt0 and eps (unsat of assumptions AND violation). Models are replayed "
+         "on the real driver in eager mode and re-judged by an independent plain-Python statement of the clauses.",
+    technique="jaxpr symbolic execution over z3 terms (bounded unrolling, ite merging, UFs for error profile/products) + z3 QF_UFLRA; concrete replay",
+    design="§4 C06",
+    note="Assumes real-valued time, the unwinding bounds (<=2 consecutive rejections, <=2 loop iterations per checkpoint in the "
+         "quick tier), concrete controller parameters, and sound UF abstractions of x**c, products and quotients of symbolic "
+         "terms. Trusted base: CPython+JAX tracing, jxs interpreter, z3.")
+
 DIRECT_NOTE = ("Assumes real arithmetic and polynomial inputs with symbolic coefficients up to the stated degree/size. "
                "Trusted base: CPython+JAX tracing (jet/jvp/vmap are JAX's own), the jxs interpreter and polynomial "
                "arithmetic (re-validated every run against the real JAX runtime), z3.")
